@@ -1,35 +1,455 @@
+// C04 harness: logical responses are generated, encoded by an encoder written from the protocol
+// specification (c04lib/wire.go), and fed to the real driver: readHeader, readFrame, parseFrame, and for
+// rows Iter.Scan with recording destinations / Iter.RowData.  What the driver reports is
+//   * compared in Go with what the logical response says (the property monitor), and
+//   * emitted as Coq correspondence cases: the Coq specification encoder must produce the same bytes,
+//     Spec.view must equal the driver's report, and the Coq model of the parsers must agree with the
+//     driver on header, frame, leftovers and every scanned cell.
 package main
 
 import (
 	"bytes"
+	"compress/gzip"
 	"fmt"
-	"runtime/debug"
+	"io"
+	"os"
 
 	"github.com/gocql/gocql"
+	"gocqlverif/c04lib"
+	"gocqlverif/hlib"
 )
 
-func try(proto byte, hdr gocql.VerifC04Header, body []byte) {
-	defer func() {
-		if r := recover(); r != nil {
-			fmt.Printf("PANIC %T %v\n%s\n", r, r, debug.Stack())
-		}
-	}()
-	f := gocql.VerifC04NewFramer(nil, proto)
-	if err := f.ReadFrame(bytes.NewReader(body), hdr); err != nil {
-		fmt.Println("readFrame err", err)
+type zeroReader struct{ n int64 }
+
+func (z *zeroReader) Read(p []byte) (int, error) {
+	if z.n <= 0 {
+		return 0, io.EOF
+	}
+	n := int64(len(p))
+	if n > z.n {
+		n = z.n
+	}
+	for i := int64(0); i < n; i++ {
+		p[i] = 0
+	}
+	z.n -= n
+	return int(n), nil
+}
+
+func coqHeader(h gocql.VerifC04Header) string {
+	return fmt.Sprintf("(Build_header %d %d %s %d %s)", h.Version, h.Flags, hlib.Z(int64(h.Stream)), h.Op, hlib.Z(int64(h.Length)))
+}
+
+// full pipeline on wire bytes: readHeader, readFrame, parseFrame
+func pipeline(proto int, wire []byte) (h gocql.VerifC04Header, out c04lib.Outcome, herr error) {
+	rd := bytes.NewReader(wire)
+	h, herr = gocql.VerifC04ReadHeader(rd, make([]byte, 9))
+	if herr != nil {
 		return
 	}
-	fr, err := f.ParseFrame()
-	fmt.Printf("%+v %v rest=%v\n", fr, err, f.Rest())
+	body := wire[len(wire)-rd.Len():]
+	out = c04lib.Parse(proto, int(h.Version), int(h.Flags), int(h.Op), body[:min(len(body), max(h.Length, 0))])
+	return
+}
+
+// mapKeyFinding: the trigger of known finding rowdata-map-key -- some column type contains a map whose
+// key type is blob, a collection, a tuple or a UDT (Go types that cannot be map keys)
+func mapKeyFinding(cols []c04lib.SCol) string {
+	var bad func(t *c04lib.SType, top bool) bool
+	uncomparable := func(t *c04lib.SType) bool {
+		return t.Kind == c04lib.KList || t.Kind == c04lib.KSet || t.Kind == c04lib.KMap || t.Kind == c04lib.KTuple || t.Kind == c04lib.KUDT ||
+			(t.Kind == c04lib.KNative && t.ID == 3) || (t.Kind == c04lib.KCustom && t.Class == c04lib.MarshalPrefix+"BytesType") ||
+			(t.Kind == c04lib.KCustom && t.Class == "BytesType")
+	}
+	bad = func(t *c04lib.SType, top bool) bool {
+		switch t.Kind {
+		case c04lib.KMap:
+			return uncomparable(t.Elems[0]) || bad(t.Elems[0], false) || bad(t.Elems[1], false)
+		case c04lib.KList, c04lib.KSet:
+			return bad(t.Elems[0], false)
+		case c04lib.KTuple:
+			if top { // RowData creates one value per component of a top-level tuple column
+				for _, e := range t.Elems {
+					if bad(e, false) {
+						return true
+					}
+				}
+			}
+		}
+		return false
+	}
+	for _, c := range cols {
+		if bad(c.Type, true) {
+			return "rowdata-map-key"
+		}
+	}
+	return ""
+}
+
+// scannerFinding: the trigger of known finding scanner-tuple-column-offset -- a tuple column whose number of
+// components is not 1 is followed by another column (iterScanner.Scan indexes the row's cells by destination)
+func scannerFinding(cols []c04lib.SCol) string {
+	for i, c := range cols {
+		if i < len(cols)-1 && c.Type.Kind == c04lib.KTuple && len(c.Type.Elems) != 1 {
+			return "scanner-tuple-column-offset"
+		}
+	}
+	return ""
+}
+
+// stypeOf: the logical type a parsed TypeInfo stands for (native and collection types)
+func stypeOf(t gocql.TypeInfo) *c04lib.SType {
+	switch x := t.(type) {
+	case gocql.CollectionType:
+		switch x.Type() {
+		case gocql.TypeList:
+			return &c04lib.SType{Kind: c04lib.KList, Elems: []*c04lib.SType{stypeOf(x.Elem)}}
+		case gocql.TypeSet:
+			return &c04lib.SType{Kind: c04lib.KSet, Elems: []*c04lib.SType{stypeOf(x.Elem)}}
+		default:
+			return &c04lib.SType{Kind: c04lib.KMap, Elems: []*c04lib.SType{stypeOf(x.Key), stypeOf(x.Elem)}}
+		}
+	case gocql.NativeType:
+		if x.Type() == gocql.TypeCustom {
+			return &c04lib.SType{Kind: c04lib.KCustom, Class: x.Custom()}
+		}
+		return &c04lib.SType{Kind: c04lib.KNative, ID: int(x.Type())}
+	}
+	return nil
+}
+
+// recordedFrame: an anchor that did not come from this driver or this harness -- the RESULT Rows body
+// recorded from a Cassandra node in /repo/testdata/frames/bench_parse_result.gz (system.schema_columns).
+// What the driver reads out of it (metadata, every cell) is turned back into a logical response and
+// re-encoded by the harness's specification encoder: the bytes must be the recorded ones; the Coq
+// specification encoder and the model are then checked on the same response.
+func recordedFrame(o *hlib.Out) {
+	repo := os.Getenv("VERIF_REPO")
+	if repo == "" {
+		repo = "/repo"
+	}
+	f, err := os.Open(repo + "/testdata/frames/bench_parse_result.gz")
+	if err != nil {
+		o.Count("recorded-frame-missing")
+		return
+	}
+	defer f.Close()
+	zr, err := gzip.NewReader(f)
+	if err != nil {
+		o.Count("recorded-frame-missing")
+		return
+	}
+	body, err := io.ReadAll(zr)
+	if err != nil {
+		o.Count("recorded-frame-missing")
+		return
+	}
+	out := c04lib.Parse(4, 0x84, 0, c04lib.OpResult, body)
+	if out.Class != "ok" || out.Frame.Kind != "rows" {
+		o.Violate(-1, "recorded-frame", "", "the recorded rows frame is not parsed as a rows frame: "+out.Class+" "+out.ErrMsg, nil)
+		return
+	}
+	fm := out.Frame.Meta
+	m := c04lib.SMeta{Count: fm.ColCount, HasPaging: fm.Flags&2 != 0, Paging: fm.PagingState, NoMeta: fm.Flags&4 != 0}
+	if fm.Flags&1 != 0 && len(fm.Columns) > 0 {
+		m.Global, m.GKS, m.GTab = true, fm.Columns[0].Keyspace, fm.Columns[0].Table
+	}
+	for _, c := range fm.Columns {
+		st := stypeOf(c.TypeInfo)
+		if st == nil {
+			o.Count("recorded-frame-unsupported-type")
+			return
+		}
+		sc := c04lib.SCol{Name: c.Name, Type: st}
+		if !m.Global {
+			sc.KS, sc.Table = c.Keyspace, c.Table
+		}
+		m.Cols = append(m.Cols, sc)
+	}
+	nd := fm.ActualColCount
+	scans := c04lib.Scans(out.Framer.Iter(out.Frame), nd, out.Frame.NumRows+1)
+	var rows [][]c04lib.SCell
+	for _, sc := range scans {
+		if sc.Kind != "row" {
+			break
+		}
+		row := make([]c04lib.SCell, len(sc.Cells))
+		for i, c := range sc.Cells {
+			row[i] = c04lib.SCell{Val: c04lib.OptBytes{Null: c.IsNil, Val: c.Data}}
+		}
+		rows = append(rows, row)
+	}
+	resp := &c04lib.Response{Op: c04lib.OpResult, Result: c04lib.SResult{Kind: c04lib.RRows, Meta: m, Rows: rows}}
+	env := &c04lib.Envelope{}
+	re := resp.EncodeBody(4)
+	if !bytes.Equal(re, body) || len(rows) != out.Frame.NumRows {
+		i := 0
+		for i < len(re) && i < len(body) && re[i] == body[i] {
+			i++
+		}
+		o.Violate(-1, "recorded-frame", "", fmt.Sprintf("re-encoding what the driver read from the recorded frame differs from the recording at byte %d (%d rows read of %d; %d bytes against %d)", i, len(rows), out.Frame.NumRows, len(re), len(body)), nil)
+		return
+	}
+	pre := fmt.Sprintf("4 1 0 %s %s", env.Coq(), resp.Coq())
+	wire := c04lib.EncodeFrame(4, 1, 0, env, resp)
+	o.Case("recorded-frame:spec-enc", true, fmt.Sprintf("CSpecEnc %s %s", pre, hlib.ZList(wire)))
+	o.Case("recorded-frame:spec-view", true, fmt.Sprintf("CSpecView %s %s", pre, out.Pres(4)))
+	o.Case("recorded-frame:scan", true, fmt.Sprintf("CScan 4 132 0 8 %s %d %s %s", hlib.ZList(body), nd, hlib.Nat(out.Frame.NumRows+1), c04lib.CoqScans(scans)))
+	o.Extra["recorded_frame_rows"] = len(rows)
+	o.Extra["recorded_frame_bytes"] = len(body)
+}
+
+func min(a, b int) int {
+	if a < b {
+		return a
+	}
+	return b
+}
+func max(a, b int) int {
+	if a > b {
+		return a
+	}
+	return b
 }
 
 func main() {
-	// EVENT STATUS_CHANGE with inet size 16 and 2 bytes
-	body := []byte{0, 13}
-	body = append(body, "STATUS_CHANGE"...)
-	body = append(body, 0, 2, 'U', 'P', 16, 1, 2)
-	try(4, gocql.VerifC04Header{Version: 0x84, Op: 0x0c, Length: len(body), Stream: -1}, body)
-	// prepared pk count -5
-	b2 := []byte{0, 0, 0, 4, 0, 1, 'x', 0, 0, 0, 0, 0, 0, 0, 0, 0xff, 0xff, 0xff, 0xfb}
-	try(4, gocql.VerifC04Header{Version: 0x84, Op: 0x08, Length: len(b2), Stream: 1}, b2)
+	o := hlib.Init("C04")
+	g := &c04lib.Gen{R: o.Rng}
+	r := o.Rng
+	o.Rule = "logical responses of all 25 families x protocol versions 1-5 x envelope flags (tracing, warnings, custom payload), " +
+		"metadata flag combinations, type trees to depth 4, 0..4 (and 1000+) columns, 0..3 rows with null cells and short/null tuples; " +
+		"encoded by the harness's specification encoder; distinct = distinct Coq case term; non-trivial = the body is non-empty " +
+		"(every kind except READY and RESULT void without prefixes)"
+
+	doResponse := func(v int, resp *c04lib.Response, env *c04lib.Envelope, label string) {
+		stream := int(int16(r.U64()))
+		if v <= 2 {
+			stream = int(int8(stream))
+		}
+		if r.Chance(10) {
+			stream = int(r.Pick(0, -1, 1, 127, -128))
+		}
+		extra := 0
+		if v == 5 && r.Chance(50) {
+			extra = 0x10 // beta flag
+		}
+		wire := c04lib.EncodeFrame(v, stream, extra, env, resp)
+		nontriv := len(wire) > 9
+		pre := fmt.Sprintf("%d %s %d %s %s", v, hlib.Z(int64(stream)), extra, env.Coq(), resp.Coq())
+		o.Case("spec-enc:"+label, nontriv, fmt.Sprintf("CSpecEnc %s %s", pre, hlib.ZList(wire)))
+
+		h, out, herr := pipeline(v, wire)
+		if herr != nil {
+			o.Violate(-1, "header-rejected", "", fmt.Sprintf("readHeader rejected a well-formed frame: %v", herr), hlib.ZList(wire))
+			return
+		}
+		idx := o.Case("spec-view:"+label, nontriv, fmt.Sprintf("CSpecView %s %s", pre, out.Pres(v)))
+		hs := 9
+		if v <= 2 {
+			hs = 8
+		}
+		if int(h.Version) != 0x80|v || int(h.Flags) != env.Flags()+extra || h.Stream != stream || int(h.Op) != resp.Op || h.Length != len(wire)-hs {
+			o.Violate(idx, "header-fields", "", fmt.Sprintf("header %+v for version %d flags %d stream %d op %d length %d", h, v, env.Flags()+extra, stream, resp.Op, len(wire)-hs), hlib.ZList(wire))
+		}
+		want := c04lib.Expect(v, env, resp)
+		if got := out.Pres(v); got != want {
+			detail := fmt.Sprintf("driver reports %s; the frame says %s", got, want)
+			if out.Class != "ok" {
+				detail = fmt.Sprintf("driver outcome %s (%s %s %+v); the frame says %s", out.Class, out.Err, out.ErrMsg, out.Panic, want)
+			}
+			o.Violate(idx, "decoded-view:"+label, "", detail, hlib.ZList(wire))
+		}
+		if out.Class != "ok" || out.Frame.Kind != "rows" {
+			return
+		}
+		// rows: Scan with recording destinations; RowData column names
+		res := &resp.Result
+		body := wire[hs:]
+		if !res.Meta.NoMeta {
+			nd := res.Meta.ScanWidth()
+			k := len(res.Rows) + 2
+			it := out.Framer.Iter(out.Frame)
+			names, npanic := c04lib.RowDataOutcome(it)
+			if npanic != nil {
+				// a crash, not a wrong value: property C05 reports it (known finding rowdata-map-key); here the
+				// correspondence case below only checks that the model crashes at the same place
+				o.Count("rowdata-panic(C05)")
+				if mapKeyFinding(res.Meta.Cols) == "" {
+					o.Violate(-1, "rowdata-panic-unexplained", "", fmt.Sprintf("Iter.RowData panicked: %s in %s", npanic.Value, npanic.Func), hlib.ZList(wire))
+				}
+			}
+			scans := c04lib.Scans(it, nd, k)
+			sidx := o.Case("scan:"+label, len(res.Rows) > 0, fmt.Sprintf("CScan %d %d %d %d %s %d %s %s", v, h.Version, h.Flags, h.Op,
+				hlib.ZList(body), nd, hlib.Nat(k), c04lib.CoqScans(scans)))
+			for i, row := range res.Rows {
+				want := c04lib.ExpectRow(&res.Meta, row)
+				if i >= len(scans) || scans[i].Coq() != want {
+					got := "nothing"
+					if i < len(scans) {
+						got = scans[i].Coq()
+					}
+					o.Violate(sidx, "scan-cells", "", fmt.Sprintf("row %d: Scan delivered %s; the frame says %s", i, got, want), hlib.ZList(wire))
+					break
+				}
+			}
+			if len(scans) != k || scans[len(res.Rows)].Coq() != "(SFalse None)" {
+				o.Violate(sidx, "scan-end", "", fmt.Sprintf("after %d rows Scan did not end cleanly: %s", len(res.Rows), c04lib.CoqScans(scans)), hlib.ZList(wire))
+			}
+			// the same rows through the Scanner API
+			{
+				o2 := c04lib.Parse(v, int(h.Version), int(h.Flags), int(h.Op), body)
+				ss := c04lib.ScannerSteps(o2.Framer.Iter(o2.Frame), nd, k)
+				scidx := o.Case("scanner:"+label, len(res.Rows) > 0, fmt.Sprintf("CScanner %d %d %d %d %s %d %s %s", v, h.Version, h.Flags, h.Op,
+					hlib.ZList(body), nd, hlib.Nat(k), c04lib.CoqScans(ss)))
+				fid := scannerFinding(res.Meta.Cols)
+				for i, row := range res.Rows {
+					want := c04lib.ExpectRow(&res.Meta, row)
+					if i >= len(ss) || ss[i].Coq() != want {
+						got := "nothing"
+						if i < len(ss) {
+							got = ss[i].Coq()
+						}
+						o.Violate(scidx, "scanner-cells", fid, fmt.Sprintf("row %d: Scanner delivered %s; the frame says %s", i, got, want), hlib.ZList(wire))
+						break
+					}
+				}
+			}
+			if env.Flags() == 0 && (npanic != nil || r.Chance(50)) {
+				o.Case("names", nd > 0, fmt.Sprintf("CNames %d %s %s", v, hlib.ZList(body), names))
+			}
+			// a wrong number of destinations is an error, not a crash
+			if r.Chance(30) {
+				it2 := c04lib.Parse(v, int(h.Version), int(h.Flags), int(h.Op), body)
+				sc := c04lib.Scans(it2.Framer.Iter(it2.Frame), nd+1, 2)
+				o.Case("scan-wrong-count", true, fmt.Sprintf("CScan %d %d %d %d %s %d %s %s", v, h.Version, h.Flags, h.Op,
+					hlib.ZList(body), nd+1, hlib.Nat(2), c04lib.CoqScans(sc)))
+			}
+		}
+	}
+
+	reps := 2 * o.Scale
+	for rep := 0; rep < reps; rep++ {
+		for v := 1; v <= 5; v++ {
+			for kind := 0; kind < c04lib.NKinds; kind++ {
+				resp := g.ResponseOfKind(v, kind)
+				doResponse(v, resp, g.Envelope(v), resp.Describe())
+			}
+		}
+	}
+
+	// systematic: every metadata flag combination x version, two columns, one a tuple
+	for v := 1; v <= 5; v++ {
+		for flags := 0; flags < 8; flags++ {
+			m := c04lib.SMeta{Count: 2, Global: flags&1 != 0, GKS: "ks", GTab: "tb", HasPaging: flags&2 != 0, Paging: r.Bytes(3), NoMeta: flags&4 != 0}
+			if !m.NoMeta {
+				m.Cols = []c04lib.SCol{{KS: "k1", Table: "t1", Name: "a", Type: g.Type(1)},
+					{KS: "k2", Table: "t2", Name: "b", Type: &c04lib.SType{Kind: c04lib.KTuple, Elems: []*c04lib.SType{g.Type(0), g.Type(1)}}}}
+			}
+			resp := &c04lib.Response{Op: c04lib.OpResult, Result: c04lib.SResult{Kind: c04lib.RRows, Meta: m, Rows: g.Rows(&m, 2)}}
+			doResponse(v, resp, &c04lib.Envelope{}, "rows-flags")
+			pm := m
+			pm.NoMeta = false
+			if pm.Cols == nil {
+				pm.Cols = []c04lib.SCol{{KS: "k1", Table: "t1", Name: "a", Type: g.Type(1)}, {KS: "k2", Table: "t2", Name: "b", Type: g.Type(2)}}
+			}
+			resp = &c04lib.Response{Op: c04lib.OpResult, Result: c04lib.SResult{Kind: c04lib.RPrepared, ID: r.Bytes(8), Meta: pm, RespMeta: m, PK: []int{1, 0}}}
+			doResponse(v, resp, &c04lib.Envelope{}, "prepared-flags")
+		}
+	}
+
+	// systematic: deep type trees (depth 4) in one column
+	for i := 0; i < 10*o.Scale; i++ {
+		v := 1 + r.Intn(5)
+		m := c04lib.SMeta{Count: 1, Cols: []c04lib.SCol{{KS: "k", Table: "t", Name: g.Name(), Type: g.Type(4)}}}
+		resp := &c04lib.Response{Op: c04lib.OpResult, Result: c04lib.SResult{Kind: c04lib.RRows, Meta: m, Rows: g.Rows(&m, 1)}}
+		doResponse(v, resp, g.Envelope(v), "rows-deep-type")
+	}
+
+	// skip-metadata: columns from a PREPARED response, rows from a rows frame without metadata
+	for i := 0; i < 10*o.Scale; i++ {
+		v := 2 + r.Intn(4)
+		rm := g.Meta(1+r.Intn(3), 2, false)
+		prep := &c04lib.Response{Op: c04lib.OpResult, Result: c04lib.SResult{Kind: c04lib.RPrepared, ID: r.Bytes(8), Meta: g.Meta(r.Intn(3), 1, false), RespMeta: rm}}
+		rowsMeta := c04lib.SMeta{NoMeta: true, Count: len(rm.Cols), HasPaging: r.Bool(), Paging: r.Bytes(4)}
+		rows := g.Rows(&rm, 1+r.Intn(3))
+		rowsResp := &c04lib.Response{Op: c04lib.OpResult, Result: c04lib.SResult{Kind: c04lib.RRows, Meta: rowsMeta, Rows: rows}}
+		pb := prep.EncodeBody(v)
+		rb := rowsResp.EncodeBody(v)
+		po := c04lib.Parse(v, 0x80|v, 0, c04lib.OpResult, pb)
+		ro := c04lib.Parse(v, 0x80|v, 0, c04lib.OpResult, rb)
+		if po.Class != "ok" || ro.Class != "ok" {
+			o.Violate(-1, "skip-meta-parse", "", fmt.Sprintf("prepared %s rows %s", po.Class, ro.Class), nil)
+			continue
+		}
+		it := ro.Framer.IterSkipMeta(ro.Frame, po.Frame)
+		nd := rm.ScanWidth()
+		k := len(rows) + 1
+		scans := c04lib.Scans(it, nd, k)
+		idx := o.Case("scan-skip-meta", true, fmt.Sprintf("CScanSkip %d %s %s %d %s %s", v, hlib.ZList(pb), hlib.ZList(rb), nd, hlib.Nat(k), c04lib.CoqScans(scans)))
+		for j, row := range rows {
+			if want := c04lib.ExpectRow(&rm, row); j >= len(scans) || scans[j].Coq() != want {
+				o.Violate(idx, "scan-cells-skip-meta", "", fmt.Sprintf("row %d differs from %s", j, want), nil)
+				break
+			}
+		}
+		if !bytes.Equal(it.PageState(), rowsMeta.PagingOrNil()) && !(len(it.PageState()) == 0 && len(rowsMeta.PagingOrNil()) == 0) {
+			o.Violate(idx, "skip-meta-paging", "", fmt.Sprintf("paging state %x want %x", it.PageState(), rowsMeta.PagingOrNil()), nil)
+		}
+	}
+
+	// readHeader: every version byte class, every truncation
+	for vb := 0; vb < 256; vb += 1 {
+		if o.Scale == 1 && vb&0x7f > 8 && vb%16 != 0 {
+			continue
+		}
+		full := append([]byte{byte(vb)}, r.Bytes(10)...)
+		for cut := 0; cut <= 10; cut++ {
+			if o.Scale == 1 && vb&0x7f > 6 && cut != 0 && cut != 9 {
+				continue
+			}
+			s := full[:cut]
+			rd := bytes.NewReader(s)
+			h, err := gocql.VerifC04ReadHeader(rd, make([]byte, 9))
+			impl := ""
+			if err != nil {
+				impl = "(HErr " + c04lib.ErrClass(err) + ")"
+			} else {
+				impl = fmt.Sprintf("(HOk %s %s)", coqHeader(h), hlib.ZList(s[len(s)-rd.Len():]))
+			}
+			o.Case("header", cut > 0, fmt.Sprintf("CHeader %s %s", hlib.ZList(s), impl))
+		}
+	}
+
+	// readFrame: declared length against available bytes, compression flag, the size limit
+	for i := 0; i < 40*o.Scale; i++ {
+		avail := r.Intn(40)
+		length := avail + int(r.Pick(0, 0, 0, -1, 1, 5, int64(-avail), int64(-avail-1), -1000))
+		flags := int(r.Pick(0, 0, 0, 1, 2, 3, 0x1f))
+		s := r.Bytes(avail)
+		f := gocql.VerifC04NewFramer(nil, byte(1+r.Intn(5)))
+		rd := bytes.NewReader(s)
+		err := f.ReadFrame(rd, gocql.VerifC04Header{Version: 0x84, Flags: byte(flags), Length: length})
+		impl := ""
+		if err != nil {
+			impl = "(Err " + c04lib.ErrClass(err) + ")"
+		} else {
+			impl = fmt.Sprintf("(Ok (%s, %s))", hlib.ZList(f.Rest()), hlib.ZList(s[len(s)-rd.Len():]))
+		}
+		o.Case("read-frame", true, fmt.Sprintf("CReadFrame %s %d %s %s", hlib.Z(int64(length)), flags, hlib.ZList(s), impl))
+	}
+	for _, c := range []struct{ length, avail int64 }{
+		{gocql.VerifC04MaxFrameSize + 1, gocql.VerifC04MaxFrameSize + 1}, {gocql.VerifC04MaxFrameSize + 1, gocql.VerifC04MaxFrameSize + 5},
+		{gocql.VerifC04MaxFrameSize + 1, 100}, {2147483647, 0}} {
+		f := gocql.VerifC04NewFramer(nil, 4)
+		err := f.ReadFrame(&zeroReader{n: c.avail}, gocql.VerifC04Header{Version: 0x84, Length: int(c.length)})
+		if err == nil {
+			o.Violate(-1, "read-frame-big", "", fmt.Sprintf("length %d with %d available accepted", c.length, c.avail), nil)
+			continue
+		}
+		o.Case("read-frame-big", true, fmt.Sprintf("CReadFrameBig %d 0 %d %s", c.length, c.avail, c04lib.ErrClass(err)))
+	}
+
+	recordedFrame(o)
+
+	o.Finish("From GocqlV Require Import Lib.Base C04.Model C04.Spec C04.Corr.", "C04.Corr.case", "C04.Corr.run")
 }
